@@ -260,6 +260,25 @@ def run(ctx):
                 "an exit taken before the per-response loop does not deliver a result to every Deferred of the batch",
                 where(hsr, n.stmt), "those sends never complete", facts=["deliver-all nodes=%d" % len(deliver_all)])
 
+    # acknowledgements disabled + a partial failure: there are no response objects, so the payloads that did NOT fail have
+    # to be completed (with None) right there - otherwise their Deferreds fire only if a later retry of the others succeeds
+    ch_ = ctx.cfg(hsr)
+    fh_ = ctx.facts(hsr)
+    pr0 = hsr.first_param()
+    from ..cfg import cond_atoms as _ca2
+    starts_ = []
+    for t in [n for n in ch_.nodes if n.kind == "test"]:
+        for s_, lab in ch_.succ[t.id]:
+            if lab and lab[0] == "cond" and ("%s.check(FailedPayloadsError)" % pr0, True) in _ca2(lab[1], lab[2]):
+                starts_.append(s_)
+    partial = [n for n in ch_.nodes if starts_ and (n.id in starts_ or ch_.dominates(starts_, n.id))]
+    noack_deliver = [n for n in partial if ("self.req_acks == PRODUCER_ACK_NOT_REQUIRED", True) in fh_[n.id] and any(
+        call_name(c) == deliver.name and len(c.args) >= 2 and isinstance(c.args[1], ast.Constant) and c.args[1].value is None for c in n.calls())]
+    r.check(bool(partial) and bool(noack_deliver), "%s#no-ack-partial-failure-completes-the-rest" % hsr.qname,
+            "with acknowledgements disabled, a partial failure does not complete the sends whose payloads were handed to their broker",
+            where(hsr, partial[0].stmt if partial and partial[0].stmt is not None else hsr.node),
+            "acks=0, two partitions, one broker write fails and runs out of attempts: the Deferred of the other (written) send never fires")
+
     # ---- R5 exhaustion arm
     r = ctx.rule("R5", "attempt exhaustion delivers to the Deferreds of every failed payload and schedules nothing",
                  2, "B")
@@ -313,6 +332,9 @@ def stop_fails_outstanding(ctx, r):
 
 
 MUTANTS = [
+    {"id": "noack-partial-failure-forgets-written", "file": "producer.py",
+     "old": "                    for t_and_p, p in payloadsByTopicPart.items():\n                        if not any(p is failed_p for failed_p, _f in failed_payloads):\n                            _deliver_result(deferredsByTopicPart[t_and_p], None)\n",
+     "new": "                    pass\n", "expect": "C01.R4", "note": "finding F22"},
     {"id": "unwrap-failure", "file": "producer.py",
      "old": "                    if not isinstance(f, Failure):\n                        f = Failure(f)\n", "new": "",
      "expect": "C01.R1"},
